@@ -180,6 +180,8 @@ class Compiler:
                 raise CompilationError('CLOSE date must follow OPEN date')
 
             # Apply OPEN, CLOSE, and CLEAR clauses.
+            if not hasattr(self.table, 'update'):
+                raise CompilationError('FROM expressions and OPEN, CLOSE, CLEAR qualifiers are not supported for this table', node)
             self.table = self.table.update(open=node.open, close=node.close, clear=node.clear)
 
             return c_expression
